@@ -5,6 +5,8 @@ import BSEModel.ManipOps
 import BSEModel.Canon
 import BSEGen.Manip
 import BSEGen.Api
+import BSEProofs.Lemmas.PruneFull
+import BSEProofs.Lemmas.SortPerm
 /-! # C02 — re-contraction operations preserve the set of basis functions exactly
 
 `funcSet val shells f` : the contracted function `f = (l, exponent ↦ coefficient)` occurs in the
@@ -38,26 +40,6 @@ theorem uncontractGeneral_preserves (val : ν → Rat) (shells : List (Shell ν)
 theorem uncontractSpdf_preserves (val : ν → Rat) (k : Nat) (shells : List (Shell ν)) (f : Func) :
     funcSet val (uncontractSpdf k shells) f ↔ funcSet val shells f :=
   funcSet_uncontractSpdf val k shells f
-
-/-- membership in `sortAm` -/
-theorem mem_insertAm (a x : List Nat) (l : List (List Nat)) : x ∈ insertAm a l ↔ x = a ∨ x ∈ l := by
-  induction l with
-  | nil => simp [insertAm]
-  | cons b bs ih =>
-    unfold insertAm
-    split
-    · simp
-    · simp only [List.mem_cons, ih]
-      constructor
-      · rintro (h | h | h) <;> simp [h]
-      · rintro (h | h | h) <;> simp [h]
-
-theorem mem_sortAm (l : List (List Nat)) (x : List Nat) : x ∈ sortAm l ↔ x ∈ l := by
-  induction l with
-  | nil => simp [sortAm]
-  | cons a as ih =>
-    show x ∈ insertAm a (sortAm as) ↔ _
-    rw [mem_insertAm, ih]; simp
 
 /-- the zero with which `make_general` pads (read from the source on every run) is a zero -/
 theorem mgZero_is_zero : numVal BSE.Gen.Manip.mgZero = 0 := by decide +kernel
@@ -94,6 +76,58 @@ theorem getBasis_block_order :
          ("make_general", [.makeGeneral false], true), ("needs_pruning", [.pruneBasis], false)] := by
   decide
 
+/-! ## whole operations (core step **and** the pruning pass that follows it)
+
+`SemWF val sh`: the shell is rectangular, has a momentum and a column, and no column is the zero function under
+`val` (the validator's "no all-zero contraction" rule, stated on values).  Under it the pruning pass cannot raise
+"shell emptied" and cannot drop a function, so the *whole* operation — as `get_basis` runs it — keeps the set. -/
+
+/-- **prune_basis** (every shell pruned, then exact-duplicate shells dropped): if it returns, the set is the same -/
+theorem pruneBasis_preserves_full [DecidableEq ν] (val : ν → Rat) (shells out : List (Shell ν))
+    (hw : ∀ sh ∈ shells, SemWF val sh) (h : pruneShells val shells = .ok out) (f : Func) :
+    funcSet val out f ↔ funcSet val shells f :=
+  funcSet_pruneShells val shells out hw h f
+
+/-- a well-formed shell survives pruning with at least one primitive -/
+theorem pruneShell_never_empties (val : ν → Rat) (sh sh' : Shell ν) (hw : SemWF val sh)
+    (h : pruneShell val sh = .ok sh') : sh'.exps ≠ [] :=
+  pruneShell_survives val sh sh' hw h
+
+/-- **uncontract_general** including its pruning pass -/
+theorem uncontractGeneral_preserves_full [DecidableEq ν] (val : ν → Rat) (shells out : List (Shell ν))
+    (hw : ∀ sh ∈ shells, SemWF val sh) (h : uncontractGeneral val shells = .ok out) (f : Func) :
+    funcSet val out f ↔ funcSet val shells f :=
+  funcSet_uncontractGeneral val shells out hw h f
+
+/-- **make_general** as called by `get_basis`: optional split of fused shells, per-momentum merge with zero
+padding, pruning pass.  If it returns (it raises on mixed function types), the set is the same. -/
+theorem makeGeneral_preserves_full [DecidableEq ν] (val : ν → Rat) (zero : ν) (hz : val zero = 0) (skip : Bool)
+    (shells out : List (Shell ν))
+    (hw : ∀ sh ∈ (if skip then shells else uncontractSpdf 0 shells), SemWF val sh)
+    (h : makeGeneral val zero skip shells = .ok out) (f : Func) :
+    funcSet val out f ↔ funcSet val shells f :=
+  funcSet_makeGeneral val zero hz skip shells out hw h f
+
+/-- … with the padding literal of the source -/
+theorem makeGeneral_preserves_full_code (skip : Bool) (shells out : List (Shell String))
+    (hw : ∀ sh ∈ (if skip then shells else uncontractSpdf 0 shells), SemWF numVal sh)
+    (h : makeGeneral numVal BSE.Gen.Manip.mgZero skip shells = .ok out) (f : Func) :
+    funcSet numVal out f ↔ funcSet numVal shells f :=
+  makeGeneral_preserves_full numVal _ mgZero_is_zero skip shells out hw h f
+
+/-- **sort_shell**: reordering primitives (every column with them) and, for a single-momentum shell, the columns
+only permutes the functions of the shell -/
+theorem sortShell_preserves (val : ν → Rat) (rsq : List Rat) (sh : Shell ν) (hr : RectShell sh)
+    (hk : sh.am.length = 1 → rsq.length = sh.coefs.length) (f : Func) :
+    f ∈ (sortShell val rsq sh).funcs val ↔ f ∈ sh.funcs val :=
+  mem_funcs_sortShell val rsq sh hr hk f
+
+/-- **sort_shells** (each shell sorted, then the shells stably sorted by key) keeps the set, whatever the keys -/
+theorem sortShells_preserves (val : ν → Rat) (keyed : List (Shell ν × List Rat × Rat))
+    (hw : ∀ t ∈ keyed, RectShell t.1 ∧ (t.1.am.length = 1 → t.2.1.length = t.1.coefs.length)) (f : Func) :
+    funcSet val (sortShells val keyed) f ↔ funcSet val (keyed.map (·.1)) f :=
+  funcSet_sortShells val keyed hw f
+
 /-! non-vacuity: a concrete fused + general element meets the hypotheses and the operations act -/
 def demo : List (Shell String) :=
   [{ am := [0, 1], ftype := "gto", region := "", exps := ["2.0", "1.0"], coefs := [["0.5", "0.5"], ["0.3", "0.7"]] },
@@ -101,6 +135,24 @@ def demo : List (Shell String) :=
 
 example : (∀ sh ∈ demo, RectShell sh) ∧ (∀ sh ∈ demo, sh.am ≠ []) := by
   refine ⟨?_, ?_⟩ <;> intro sh h <;> simp [demo] at h <;> rcases h with rfl | rfl <;> simp [RectShell]
+def demo1 : List (Shell String) :=
+  [{ am := [0], ftype := "gto", region := "", exps := ["2.0", "1.0"], coefs := [["0.5", "0.5"]] },
+   { am := [0], ftype := "gto", region := "", exps := ["0.25"], coefs := [["1.0"]] },
+   { am := [2], ftype := "gto_spherical", region := "", exps := ["3.0", "1.0"], coefs := [["1.0", "0.0"], ["0.0", "1.0"]] }]
+
+/-- a three-shell element is semantically well-formed; (that the operations return `.ok` on such elements is what the driver exhibits on every store element) -/
+example : ∀ sh ∈ demo1, SemWF numVal sh := by
+  intro sh h
+  simp only [demo1, List.mem_cons, List.not_mem_nil, or_false] at h
+  rcases h with rfl | rfl | rfl
+  · exact ⟨by simp, by intro c hc; simp at hc; subst hc; rfl, by simp,
+      by intro c hc; simp at hc; subst hc; exact ⟨2, by decide +kernel⟩⟩
+  · exact ⟨by simp, by intro c hc; simp at hc; subst hc; rfl, by simp,
+      by intro c hc; simp at hc; subst hc; exact ⟨1/4, by decide +kernel⟩⟩
+  · exact ⟨by simp, by intro c hc; simp at hc; rcases hc with rfl | rfl <;> rfl, by simp,
+      by intro c hc; simp at hc; rcases hc with rfl | rfl
+         · exact ⟨3, by decide +kernel⟩
+         · exact ⟨1, by decide +kernel⟩⟩
 example : (uncontractSpdf 0 demo).length = 3 ∧ (uncontractGeneralCore demo).length = 3 := by decide
 
 end BSE.Props.C02
